@@ -89,20 +89,56 @@ theorem degree_spec (g : Graph) :
 
 /-! ### permute_indices / clone -/
 
-theorem permuteIndices_spec (g : Graph) (p : List Nat) (r : Arrays)
-    (h : Kern.permuteIndices (Arrays.ofGraph g) p = some r) :
-    r = Arrays.ofGraph { g with adj := g.adj.map fun l => l.map fun k => p.getD k 0 } := by
-  unfold Kern.permuteIndices at h
-  split at h
-  · simp at h
-  · split at h
-    · simp at h
-    · split at h
-      · simp only [Option.some.injEq] at h
-        subst h
-        unfold Arrays.ofGraph Graph.domainPtr Graph.imageIdx
-        simp [List.map_flatten, Function.comp_def]
-      · simp at h
+theorem wf_flatten_lt (g : Graph) (hwf : g.wf = true) : ∀ k, k ∈ g.adj.flatten → k < g.nImg := by
+  intro k hk
+  obtain ⟨l, hl, hkl⟩ := List.mem_flatten.mp hk
+  unfold Graph.wf at hwf
+  have h1 := List.all_eq_true.mp hwf l hl
+  have h2 := List.all_eq_true.mp h1 k hkl
+  simpa using h2
+
+theorem permuteIndices_spec (g : Graph) (p : List Nat) (hwf : g.wf = true) :
+    Kern.permuteIndices (Arrays.ofGraph g) p =
+      if g.imageIdx = [] ∨ g.nImg ≠ p.length then none
+      else some (Arrays.ofGraph { g with adj := g.adj.map fun l => l.map fun k => p.getD k 0 }) := by
+  unfold Kern.permuteIndices
+  by_cases h1 : g.imageIdx = []
+  · simp [Arrays.ofGraph, h1]
+  · by_cases h2 : g.nImg = p.length
+    · have hall : (Arrays.ofGraph g).idx.all (· < p.length) = true := by
+        simp only [Arrays.ofGraph, Graph.imageIdx, Array.all_eq_true_iff_forall_mem, List.mem_toArray,
+          decide_eq_true_eq]
+        intro k hk
+        have := wf_flatten_lt g hwf k hk
+        omega
+      have he : (Arrays.ofGraph g).idx.isEmpty = false := by
+        simp [Arrays.ofGraph, h1]
+      have hn : ((Arrays.ofGraph g).nImg != p.length) = false := by
+        simp [Arrays.ofGraph, h2]
+      simp only [he, hn, hall, h1, h2]
+      simp [Arrays.ofGraph, Graph.domainPtr, Graph.imageIdx, List.map_flatten, Function.comp_def, h2]
+    · have he : (Arrays.ofGraph g).idx.isEmpty = false := by
+        simp [Arrays.ofGraph, h1]
+      have hn : ((Arrays.ofGraph g).nImg != p.length) = true := by
+        simp [Arrays.ofGraph, h2]
+      simp [he, hn, h1, h2]
+
+theorem permuteIndices_relabels (g : Graph) (p : List Nat) (hwf : g.wf = true) (hne : g.imageIdx ≠ [])
+    (hp : p.length = g.nImg) :
+    ∃ g' : Graph, Kern.permuteIndices (Arrays.ofGraph g) p = some (Arrays.ofGraph g') ∧
+      g'.nImg = g.nImg ∧ g'.nDom = g.nDom ∧ ∀ i, g'.row i = (g.row i).map fun k => p.getD k 0 := by
+  refine ⟨{ g with adj := g.adj.map fun l => l.map fun k => p.getD k 0 }, ?_, rfl, ?_, ?_⟩
+  · rw [permuteIndices_spec g p hwf]
+    have : ¬ (g.imageIdx = [] ∨ g.nImg ≠ p.length) := by
+      intro h
+      rcases h with h | h
+      · exact hne h
+      · exact h hp.symm
+    simp [this]
+  · simp [Graph.nDom]
+  · intro i
+    simp only [Graph.row, List.getD_eq_getElem?_getD, List.getElem?_map]
+    cases g.adj[i]? <;> simp
 
 theorem prefixSums_ne_nil (acc : Nat) (l : List Nat) : Graph.prefixSums acc l ≠ [] := by
   cases l <;> simp [Graph.prefixSums]
